@@ -132,11 +132,31 @@ def rule_vocabulary_keep():
         _VOCAB = vocab
     vocab = _VOCAB
 
+    # a function that did not exist on the reference tree (tables/names.json, after rename normalisation) cannot be one the
+    # rules know by name, even when its last segment collides with a word of the vocabulary (a new
+    # `UntaggedTimestamp::duration_since` helper next to `Timestamp::duration_since`): it is inlined like any other helper
+    known = None
+    try:
+        import json as _json
+        snap = _json.load(open(os.path.join(VERIF, "tables", "names.json")))
+        known = set(snap.get("fns", {}))
+    except (OSError, ValueError):
+        known = None
+
     def keep(name):
         last = name.rsplit("::", 1)[-1]
         last = last.split("#")[0]
-        return last in vocab
+        if last not in vocab:
+            return False
+        if known is not None and "{closure" not in name and name not in known and norm_name(name) not in known:
+            return False
+        return True
     return keep
+
+
+def norm_name(name):
+    from .facts import norm
+    return norm(name)
 
 
 def load_known():
